@@ -708,6 +708,28 @@ func errState(v ssa.Value, at ssa.Instruction, seen map[ssa.Value]bool) string {
 		if n == "errors.New" || n == "fmt.Errorf" {
 			return "nonnil"
 		}
+	case *ssa.Extract:
+		// result of an in-repo function all of whose returns give a definite answer at that index
+		if call, ok := x.Tuple.(*ssa.Call); ok {
+			if f := call.Call.StaticCallee(); f != nil && len(f.Blocks) > 0 && (f.Parent() != nil || (f.Pkg != nil && strings.HasPrefix(f.Pkg.Pkg.Path(), modPath))) {
+				res := ""
+				for _, r := range returnsOf(f) {
+					rv := resultValue(r, x.Index)
+					if rv == nil {
+						return "maybe"
+					}
+					s := errState(rv, r, seen)
+					if res == "" {
+						res = s
+					} else if res != s {
+						return "maybe"
+					}
+				}
+				if res != "" {
+					return res
+				}
+			}
+		}
 	case *ssa.UnOp:
 		if x.Op == token.MUL {
 			if g, ok := x.X.(*ssa.Global); ok && (strings.HasPrefix(g.Name(), "Err") || strings.HasPrefix(g.Name(), "err")) {
@@ -825,4 +847,39 @@ func shortFn(f *ssa.Function) string {
 	s := fnName(f)
 	s = strings.ReplaceAll(s, "internal/", "")
 	return s
+}
+
+// onPathBetween returns an instruction satisfying pred that lies on some path from a (exclusive) to b (exclusive).
+func onPathBetween(a, b ssa.Instruction, pred func(ssa.Instruction) bool) ssa.Instruction {
+	var hits []ssa.Instruction
+	seenBlk := map[*ssa.BasicBlock]bool{}
+	var walk func(blk *ssa.BasicBlock, idx int)
+	walk = func(blk *ssa.BasicBlock, idx int) {
+		for k := idx; k < len(blk.Instrs); k++ {
+			in := blk.Instrs[k]
+			if in == b {
+				return
+			}
+			if pred(in) {
+				hits = append(hits, in)
+			}
+			if isNoReturnCall(in) {
+				return
+			}
+		}
+		for _, s := range blk.Succs {
+			if seenBlk[s] || isRecoverBlock(s) {
+				continue
+			}
+			seenBlk[s] = true
+			walk(s, 0)
+		}
+	}
+	walk(a.Block(), instrIndex(a)+1)
+	for _, h := range hits {
+		if forwardSearch(h, nil, func(i ssa.Instruction) bool { return i == b }) != nil {
+			return h
+		}
+	}
+	return nil
 }
